@@ -35,7 +35,7 @@ DNext == /\ Len(script) < ScriptLen
 GView == <<View, held>>
 NotifAfterP(i, s) == \E j \in (i + 1)..Len(script) : script[j].op = "peer" /\ script[j].m.t = "notif" /\ script[j].m.sub = s
 Consumed0 == inq = <<>> /\ fwd = <<>> /\ toBack = <<>> /\ held = "no"
-DInit == GInit /\ \A i \in 11..16 : TLCSet(i, 0)
+DInit == GInit /\ \A i \in 11..17 : TLCSet(i, 0)
 (* a state in which a goal holds is not expanded further *)
 GoalHolds ==
   \/ (Consumed0 /\ \E h \in Subs : \E i \in 1..Len(script) : script[i].op = "drop" /\ script[i].h = h /\ script[i].lost /\ NotifAfterP(i, stream[h].sub))
@@ -46,7 +46,7 @@ Prune == ~GoalHolds
 
 (* each goal is emitted a few times only (a TLC register per goal and worker counts them), for different states reaching it *)
 GoalNo(name) == CASE name = "lostDropThenPush" -> 11 [] name = "lagged" -> 12 [] name = "abandonThenAccept" -> 13
-                  [] name = "sendErrOnUnsub" -> 14 [] name = "closeThenLeave" -> 15 [] name = "duplicateSubId" -> 16
+                  [] name = "sendErrOnUnsub" -> 14 [] name = "closeThenLeave" -> 15 [] name = "duplicateSubId" -> 16 [] name = "reuseThenDropEnded" -> 17
 PerGoal == 3
 Emit(name) == IF TLCGet(GoalNo(name)) < PerGoal
                 THEN TLCSet(GoalNo(name), TLCGet(GoalNo(name)) + 1) /\ PrintT(<<"REPLAY", ToJson([goal |-> name, script |-> script])>>)
@@ -67,8 +67,13 @@ G_SendErrOnUnsub == (st = "done" /\ rt = "done" /\ ~mgrAlive /\ stRes = [k |-> "
                                                   /\ \E j \in (i + 1)..Len(script) : script[j].op \in {"drop", "unsub"}
                                                   /\ \A j \in (i + 1)..Len(script) : script[j].op # "start") => Emit("sendErrOnUnsub")
 (* the server closes a subscription the application then unsubscribes / drops: no unsubscribe for an id that is gone *)
-G_CloseThenLeave == (Consumed /\ \E h \in Subs : h \in closeSeen /\ stream[h].rx \in {"dropped", "ended"} /\ stream[h].sub # NoId
+G_CloseThenLeave == (Consumed /\ \E h \in Subs : h \in closeSeen /\ stream[h].rx \in {"dropped", "ended", "gone"} /\ stream[h].sub # NoId
                      /\ \E i \in 1..Len(script) : script[i].op \in {"drop", "unsub"} /\ script[i].h = h) => Emit("closeThenLeave")
+(* the server closes a subscription and gives its id to the next one; then the application lets go of the ended handle *)
+G_ReuseThenDropEnded == (Consumed /\ \E h, g \in Subs : h # g /\ stream[h].rx = "gone" /\ stream[g].sub = stream[h].sub /\ stream[g].tx
+                         /\ \E i \in 1..Len(script) : script[i].op = "dropEnded" /\ script[i].h = h
+                                /\ \E j \in 1..(i - 1) : script[j].op = "peer" /\ script[j].m.t = "resp" /\ script[j].m.sub = stream[h].sub /\ script[j].m.id = fe[g].id)
+                        => Emit("reuseThenDropEnded")
 (* two subscriptions are given the same id by the server *)
 G_DuplicateSubId == (Consumed /\ \E h \in Subs : fe[h].res = [k |-> "fail", why |-> "invalidSubId"]) => Emit("duplicateSubId")
 =============================================================================
